@@ -541,9 +541,14 @@ func (s *Lexer) getNextToken() (*Token, error) {
 				break
 			}
 			curr_ch := s.read()
-			for curr_ch != '/' {
+			for curr_ch != '/' && curr_ch != 0 {
 				buf.WriteRune(curr_ch)
 				curr_ch = s.read()
+			}
+			if curr_ch == 0 {
+				// end of input inside the regular expression literal
+				current_state = SERROR
+				break
 			}
 
 			current_state = SREGEXP
